@@ -37,7 +37,7 @@ out.append(textwrap.dedent("""\
     (obligations) it matched on the current tree; a rule matching fewer instances than were confirmed
     by hand fails the check. *Catches* lists the confirmed property-breaking changes of
     `/verif/seeded` that the thorough tier re-applies as overlays and that must be reported
-    (`Cnn-mk` = change written by an independent sub-agent from the property text alone,
+    (`Cnn-mk`, `Cnn-r2-mk` = changes written by independent sub-agents from the property text alone, rounds 1 and 2,
     `Fnn-revert` = reversal of a `fix:` commit). Cost is ≈1–2 s (quick) unless noted.
     """))
 for pid in sorted(props):
